@@ -182,6 +182,17 @@ fn run_seq(sc: &Value) {
                 in_lib(|| drop(inj.take()));
                 emit(json!({"ev":"Drop","live":crate::interpose::owned_live()}));
             }
+            "PanicDrop" => {
+                // the scope owning the injector unwinds
+                let taken = inj.take();
+                let _ = std::panic::catch_unwind(std::panic::AssertUnwindSafe(move || {
+                    let _keep = taken;
+                    crate::interpose::set_in_lib(true);
+                    std::panic::panic_any(panics::UserPanic);
+                }));
+                crate::interpose::set_in_lib(false);
+                emit(json!({"ev":"PanicDrop","live":crate::interpose::owned_live(),"lock":__verif_lock_state()}));
+            }
             _ => {}
         }
     }
